@@ -741,6 +741,7 @@ pub struct DocGen<'r> {
     features: Vec<&'static str>,
     seg_memo: Vec<(Vec<String>, (String, KeyKind, String, String))>,
     header_memo: Vec<(Vec<String>, String)>,
+    inline_id: usize,
 }
 
 fn dummy_seg(name: &str, kind: KeyKind) -> KeySeg {
@@ -749,7 +750,7 @@ fn dummy_seg(name: &str, kind: KeyKind) -> KeySeg {
 
 impl<'r> DocGen<'r> {
     pub fn new(rng: &'r mut Rng, cfg: GenCfg) -> Self {
-        DocGen { rng, cfg, out: String::new(), stmts: Vec::new(), comment_id: 0, features: Vec::new(), seg_memo: Vec::new(), header_memo: Vec::new() }
+        DocGen { rng, cfg, out: String::new(), stmts: Vec::new(), comment_id: 0, features: Vec::new(), seg_memo: Vec::new(), header_memo: Vec::new(), inline_id: 0 }
     }
 
     fn feat(&mut self, f: &'static str) {
@@ -1005,7 +1006,8 @@ impl<'r> DocGen<'r> {
         }
         let name = abs.last().unwrap();
         let (raw, kind) = render_key_seg(self.rng, name);
-        let (wb, wa) = if self.cfg.trivia && self.rng.chance(1, 4) { (self.ws(false), self.ws(false)) } else { (String::new(), String::new()) };
+        // with stable spelling, table names carry no whitespace of their own (see C03)
+        let (wb, wa) = if !self.cfg.stable_spelling && self.cfg.trivia && self.rng.chance(1, 4) { (self.ws(false), self.ws(false)) } else { (String::new(), String::new()) };
         let v = (raw, kind, wb, wa);
         if self.cfg.stable_spelling {
             self.seg_memo.push((abs.to_vec(), v.clone()));
@@ -1032,9 +1034,7 @@ impl<'r> DocGen<'r> {
                 segs.push(dummy_seg(name, kind));
             } else {
                 let (raw, kind, wb, wa) = self.table_seg(&abs);
-                if i > 0 {
-                    text.push_str(&wb);
-                }
+                text.push_str(&wb);
                 text.push_str(&raw);
                 text.push_str(&wa);
                 segs.push(dummy_seg(name, kind));
@@ -1101,22 +1101,36 @@ impl<'r> DocGen<'r> {
                 flatten(self.rng, tb, &mut Vec::new(), &mut pairs, true);
                 let mut t = String::from("{");
                 let mut ppairs = Vec::new();
+                self.inline_id += 1;
+                let marker = format!("\u{0}inline{}", self.inline_id);
                 for (i, (path, x)) in pairs.iter().enumerate() {
-                    let w = self.ws(true);
-                    t.push_str(&w);
+                    if path.len() == 1 {
+                        let w = self.ws(true);
+                        t.push_str(&w);
+                    }
                     let mut segs = Vec::new();
+                    let mut abs = vec![marker.clone()];
                     for (j, name) in path.iter().enumerate() {
+                        abs.push(name.clone());
                         if j > 0 {
-                            let w = self.ws(false);
-                            t.push_str(&w);
                             t.push('.');
-                            let w = self.ws(false);
-                            t.push_str(&w);
                             self.feat("inline-dotted-key");
                         }
-                        let (raw, kind) = render_key_seg(self.rng, name);
-                        t.push_str(&raw);
-                        segs.push(dummy_seg(name, kind));
+                        if j + 1 < path.len() {
+                            let (raw, kind, wb, wa) = self.table_seg(&abs);
+                            t.push_str(&wb);
+                            t.push_str(&raw);
+                            t.push_str(&wa);
+                            segs.push(dummy_seg(name, kind));
+                        } else {
+                            if j > 0 {
+                                let w = self.ws(false);
+                                t.push_str(&w);
+                            }
+                            let (raw, kind) = render_key_seg(self.rng, name);
+                            t.push_str(&raw);
+                            segs.push(dummy_seg(name, kind));
+                        }
                     }
                     let w = self.ws(true);
                     t.push_str(&w);
@@ -1166,8 +1180,10 @@ impl<'r> DocGen<'r> {
 
     fn emit_keyval(&mut self, base: &[String], rel: &[String], v: &RVal) {
         self.leading_trivia();
-        let w = self.ws(false);
-        self.out.push_str(&w);
+        if rel.len() == 1 {
+            let w = self.ws(false);
+            self.out.push_str(&w);
+        }
         let (kt, segs) = self.render_kv_key(base, rel);
         self.out.push_str(&kt);
         let w = self.ws(true);
@@ -1196,6 +1212,11 @@ impl<'r> DocGen<'r> {
             text.push_str(&raw);
             text.push_str(&wa);
             segs.push(dummy_seg(name, kind));
+        }
+        if self.cfg.stable_spelling && self.cfg.trivia && self.rng.chance(1, 4) {
+            // whitespace inside the brackets belongs to the last key of the path
+            let (a, b) = (self.ws(true), self.ws(true));
+            text = format!("{a}{text}{b}");
         }
         let text = match memo {
             Some(t) => t,
